@@ -219,21 +219,28 @@ def _routes(dendropy, doc, fmt, opts, shared, grid, text, path):
             rt = ta.is_rooted_trees
             ev["arrays"].append({"t": t, "src": src, "raised": r, "rooted": -1 if rt is None else (1 if rt else 0), "trees": trees})
 
-    # ---- CharacterMatrix.get vs the matrix inside the data set
+    # ---- <Type>CharacterMatrix.get(matrix_offset) vs the matrix inside the data set: every class x every offset
     nc = len([b for b in doc["blocks"] if b["kind"] == "chars"])
     if fmt != "newick":
-        MO = [(NOOFF, "data")] + [(m, "data") for m in range(-(nc + 1), nc + 1)] if nc else [(NOOFF, "data")]
-        if nc:
-            MO += [(NOOFF, "path")] if light else [(NOOFF, "stream"), (NOOFF, "file"), (NOOFF, "path")]
-        for (m, src) in MO:
+        CLS = {"dna": dendropy.DnaCharacterMatrix, "standard": dendropy.StandardCharacterMatrix}
+        if not nc:
+            MO = [("dna", NOOFF, "data")]
+        elif light:
+            MO = sorted(set([("dna", NOOFF, "data"), ("standard", NOOFF, "data"), ("dna", 1, "data"), ("dna", nc - 1, "data"), ("standard", 1, "data"),
+                             ("dna", -1, "data"), ("dna", nc, "data"), ("standard", -(nc + 1), "data"), ("dna", 1, "path")]))
+        else:
+            MO = [(cl, m, "data") for cl in ("dna", "standard") for m in _offs(nc)]
+            MO += [(cl, m, src) for cl in ("dna", "standard") for m in (NOOFF, 1) for src in ("stream", "file", "path")]
+        for (cl, m, src) in MO:
             skw = src_kw(src)
             mk = {} if m == NOOFF else {"matrix_offset": m}
-            r, cm = _outcome(lambda: dendropy.DnaCharacterMatrix.get(schema=fmt, **dict(skw, **dict(mk, **dict(nskw, **kw)))))
+            r, cm = _outcome(lambda: CLS[cl].get(schema=fmt, **dict(skw, **dict(mk, **dict(nskw, **kw)))))
             close(skw)
             item = 0
             if not r:
                 item = mpool.add(x_c13.matrix_view(cm, codes_for(cm.taxon_namespace)))
-            ev["mcalls"].append({"m": m, "src": src, "raised": r, "item": item})
+            ev["mcalls"].append({"cls": cl, "m": m, "src": src, "raised": r, "item": item})
+
     # ---- the list routes last: with NeXML they add new taxa to a shared namespace (known finding), which would
     # otherwise change what the label-matching routes above see
     # ---- TreeList.get, Tree.get over the offset grid
@@ -345,13 +352,13 @@ def run(ctx):
     ctx.extra["route_calls_judged"] = ncalls
     psize, cpos = (3, "{1}") if ctx.quick else (5, "{0,1,2}")
     ctx.rule = ("every document of TLC's dump of MC_ReadRoutes (%d documents: <= 2 TREES blocks x 0..2 statements from the first %d statement "
-                "variants, each block with/without TRANSLATE, CHARACTERS block position in %s) x every schema it can be written in "
+                "variants, each block with/without TRANSLATE, CHARACTERS blocks of different data types (STANDARD, DNA, DNA + SETS) at position %s) x every schema it can be written in "
                 "(NEXUS always; Newick: one block without TRANSLATE; NeXML: no TRANSLATE, no labels differing by case only) x "
                 "[a] shared namespace, default options, every (collection_offset, tree_offset) in (None, -(n+1)..n)^2; "
                 "[b] shared namespace, one rotating option set; [c] separate namespaces (quick tier: b and c alternate over the documents) "
                 "= %d cases; + %d seeded random documents (1-4 TREES blocks, 0-5 statements, 3-8 leaves, 0-2 CHARACTERS blocks) x the same = %d cases; "
                 "one case = one source text read through every route (TreeList.get, Tree.get, TreeList.read, Tree.yield_from_files, "
-                "TreeArray.read, DataSet.get/read, DnaCharacterMatrix.get; data=/file=/path=); distinct_nontrivial = distinct "
+                "TreeArray.read, DataSet.get/read, Dna/StandardCharacterMatrix.get with every matrix_offset; data=/file=/path=); distinct_nontrivial = distinct "
                 "(schema, namespace mode, option set, block shape, statement attributes) with at least two delivered trees"
                 % (len(docs), psize, cpos, nmodel, nrand, len(cases) - nmodel))
     ctx.exhaustive = True
